@@ -80,6 +80,22 @@ class Source:
         return [ast.unparse(d) for d in self.get(qual).decorator_list]
 
 
+class Sources(Source):
+    """the functions and methods of several source files taken together (a unit whose instances live in more than one
+    file: a property defined in a base class of `_base.py` and overridden in `structures.py`); a qualified name must be
+    defined in one file only"""
+
+    def __init__(self, paths):
+        self.path = paths[0]
+        self.paths = list(paths)
+        self.defs = {}
+        for p in paths:
+            for q, n in Source(p).defs.items():
+                if q in self.defs:
+                    raise Unsupported(f'`{q}` is defined in more than one of {[os.path.basename(x) for x in paths]}')
+                self.defs[q] = n
+
+
 # ----------------------------------------------------------------------------------------------------------
 # instances
 
@@ -202,7 +218,8 @@ class Unit:
             if got != digest:
                 raise Unsupported(f'pinned helper `{qual}` changed (AST digest {got}, pinned {digest})')
         out = [f'import {m}' for m in self.imports]
-        out += ['/-!', f'# GENERATED by harness/py2lean.py from `{os.path.relpath(self.src.path, os.path.dirname(os.path.dirname(self.src.path)))}`'
+        shown_from = '`, `'.join(os.path.relpath(p, os.path.dirname(os.path.dirname(p))) for p in getattr(self.src, 'paths', [self.src.path]))
+        out += ['/-!', f'# GENERATED by harness/py2lean.py from `{shown_from}`'
                ' on every run. Do not edit.', '',
                'One definition per (function, static argument types) instance of the current source text.', '-/']
         out += ['', 'set_option linter.unusedVariables false', '', f'namespace {self.ns}', '']
@@ -617,6 +634,20 @@ class FnTr:
                     self.env[t.id] = Val(f'{tmp}.{i + 1}', v.typ[5:], path=t.id)
                     self.narrow.pop(t.id, None)
                 return self.wrap(f'let {tmp} := {v.text}\n' + self.block(rest))
+            if v.typ.startswith('List ') and all(isinstance(t, ast.Name) for t in tgt.elts):
+                # `a, b = xs` for a list of statically unknown length: ValueError unless it has exactly n entries
+                if not self.inst.raises:
+                    raise Unsupported(f'`{self.inst.qual}`: unpacking a list (may raise ValueError) in an instance declared not to raise')
+                names = []
+                for t in tgt.elts:
+                    nm = self.gensym(lname(t.id))
+                    names.append(nm)
+                    self.env[t.id] = Val(nm, v.typ[5:], path=t.id)
+                    self.narrow.pop(t.id, None)
+                pend, self.pending = self.pending, []
+                inner = self.block(rest)
+                self.pending = pend
+                return self.wrap(f'match {v.text} with\n| [{", ".join(names)}] =>\n{_indent(inner)}\n| _ => Except.error "ERR:Value"')
             if not (v.typ.startswith('Tuple') and v.typ.split()[0] == f'Tuple{n}'):
                 raise Unsupported(f'`{self.inst.qual}`: tuple assignment from a non-tuple')
             et = v.typ.split(' ', 1)[1]
@@ -647,6 +678,19 @@ class FnTr:
                     raise Unsupported(f'`{self.inst.qual}`: element type of `{tgt.id}` is not declared')
                 v = Val(f'({v.text} : {lean_type(hint)})', hint)
             pairs = [(tgt, v)]
+        if isinstance(tgt, ast.Tuple) and self.pending and all(isinstance(t, ast.Name) for t, _v in pairs) \
+                and not any(getattr(v, 'raises', False) for _t, v in pairs):
+            # `a, b = f(x), g(y)` with calls that may raise: they are bound first, in evaluation order, then the names
+            pend, self.pending = self.pending, []
+            lets = []
+            for t, v in pairs:
+                nm = self.gensym(lname(t.id))
+                lets.append(f'let {nm} := {v.text}')
+                self.env[t.id] = Val(nm, v.typ, path=t.id)
+                self.narrow.pop(t.id, None)
+            inner = self.block(rest)
+            self.pending = pend
+            return self.wrap('\n'.join(lets + [inner]))
         lets = []
         for t, v in pairs:
             if isinstance(t, ast.Name) and t.id in self.env and self.env[t.id].typ == 'R' and v.typ == 'Int':
@@ -1528,6 +1572,8 @@ class FnTr:
                 return Val(f'({vals[0].text}, {vals[1].text})', 'Pair ' + vals[0].typ)
             if len(vals) >= 2 and 'tuples' in self.u.hooks:
                 return Val('(' + ', '.join(v.text for v in vals) + ')', 'Prod ' + ' '.join(_paren(v.typ) for v in vals))
+            if len(vals) >= 3 and all(v.typ == vals[0].typ for v in vals) and ' ' not in vals[0].typ:
+                return Val('(' + ', '.join(v.text for v in vals) + ')', f'Tuple{len(vals)} {vals[0].typ}')
             raise Unsupported(f'tuple `{ast.unparse(e)}`')
         if isinstance(e, ast.List) and not e.elts:
             return Val('[]', 'List ?')
@@ -1563,6 +1609,16 @@ class FnTr:
                 return self.components(v)[e.slice.value]            # `t[i]` of a wider tuple (right-nested pairs)
             if v.typ == 'Chars':
                 return self.chars_subscript(v, e)
+            if 'subscript' in self.u.hooks:
+                r = self.u.hooks['subscript'](self, v, e.slice)
+                if r is not None:
+                    return r
+            if (v.typ.startswith('Pair ') or v.typ.startswith('Tuple') and ' ' in v.typ) and isinstance(e.slice, ast.Constant) \
+                    and isinstance(e.slice.value, int) and not isinstance(e.slice.value, bool):
+                n = 2 if v.typ.startswith('Pair ') else int(v.typ.split()[0][5:])
+                if 0 <= e.slice.value < n:            # a literal index into a tuple of known width
+                    i = e.slice.value
+                    return Val(f'{v.text}' + '.2' * i + ('.1' if i < n - 1 else ''), v.typ.split(' ', 1)[1])
             if v.typ.startswith('Prod ') and isinstance(e.slice, ast.Constant) and e.slice.value in (0, 1):
                 parts = _prod_parts(v.typ)
                 return Val(f'{v.text}.{e.slice.value + 1}', parts[e.slice.value])
@@ -1726,6 +1782,27 @@ class FnTr:
                         return Val(f'(if Num.lt {_paren(b.text)} {_paren(a.text)} then {b.text} else {a.text})', 'N')
                     return Val(f'(if Num.lt {_paren(a.text)} {_paren(b.text)} then {b.text} else {a.text})', 'N')
                 raise Unsupported(f'{f.id} of {a.typ}, {b.typ}')
+            if f.id in ('min', 'max') and len(e.args) == 1 and not e.keywords:
+                # `min(xs)` / `min(f(x) for x in xs)`: ValueError on an empty iterable
+                a = self.list_comp(e.args[0]) if isinstance(e.args[0], ast.GeneratorExp) else self.expr(e.args[0])
+                if a.typ == 'List R':
+                    r = Val(f'(GV.Py.{f.id}List {a.text})', 'R')
+                    r.raises = True
+                    return r
+                raise Unsupported(f'{f.id} of {a.typ}')
+            if f.id == 'zip' and len(e.args) == 1 and isinstance(e.args[0], ast.Starred):
+                # `zip(*rows)` for rows of one known width: the list of columns (no columns at all for no rows)
+                a = self.expr(e.args[0].value)
+                if a.typ.startswith('List Pair '):
+                    return Val(f'(GV.Py.zipStar2 {a.text})', 'List List ' + a.typ[10:])
+                if a.typ.startswith('List Tuple4 '):
+                    return Val(f'(GV.Py.zipStar4 {a.text})', 'List List ' + a.typ[12:])
+                raise Unsupported(f'zip(*…) of {a.typ}')
+            if f.id == 'list' and len(e.args) == 1 and not e.keywords:
+                a = self.expr(e.args[0])
+                if a.typ.startswith('List '):
+                    return a
+                raise Unsupported(f'list() of {a.typ}')
             if f.id == 'zip' and len(e.args) == 2:
                 a, b = self.expr(e.args[0]), self.expr(e.args[1])
                 if a.typ.startswith('List ') and b.typ.startswith('List '):
@@ -1910,6 +1987,7 @@ class FnTr:
             inner = self.sub()
             inner.fresh = self.fresh
             inner.env[g[0].target.id] = Val(x, xs.typ[5:], path=g[0].target.id)
+            inner.narrow.pop(g[0].target.id, None)
             if len(g) == 1:
                 el = inner.expr(e.elt)
                 out = Val(f'(({xs.text}).map (fun {x} => {el.text}))', 'List ' + el.typ)
